@@ -82,6 +82,7 @@ def emulsion_ops(draw, dim, cls0, n):
             op["d"] = draw(drop(dim, draw(st.sampled_from(other))))
             op["ds"] = [draw(drop(dim, cls0)) for _ in range(draw(st.integers(1, 3)))]
             op["k"] = draw(st.integers(0, 2))
+            op["src"] = draw(st.sampled_from(["list", "emulsion", "emulsion-copy", "generator"]))
         elif name in ("mutate_owned", "mutate_derived", "mutate_source", "getitem"):
             op["i"] = draw(_idx)
             op["r"] = draw(st.sampled_from([0.125, 7.0]))
@@ -411,6 +412,13 @@ class C20(Property):
                     continue  # the emulsion is not of the expected class at this point of the history
                 k = min(op["k"], len(good))
                 batch = good[:k] + [bad] + good[k:]
+                src = op.get("src", "list")
+                if src == "emulsion":  # the batch arrives as another (mixed) emulsion built without consistency requested
+                    batch = Emulsion(batch)
+                elif src == "emulsion-copy":
+                    batch = Emulsion(batch).copy()
+                elif src == "generator":
+                    batch = (b for b in list(batch))
                 try:
                     E.extend(batch, force_consistency=True)
                     fail("reject_extend:accepted", f"extend(force_consistency=True) accepted {bad} into an emulsion of dtype {E.dtype}")
